@@ -323,6 +323,32 @@ func (g *Gen) genC04() {
 		}
 		g.add(safetyCase("C04", line, calls, nil, kind))
 	}
+	// reuse after Reset/Init (abandoned or failed parses before): must not panic either
+	hN := g.budget(1500, 50000)
+	for i := 0; i < hN; i++ {
+		hd := "msg " + r.Pick("-", "0", "1", "2", "3", "5", "8") + " " + r.Pick("-", "0", "1", "2", "3", "4")
+		var sb strings.Builder
+		sb.WriteString(hd)
+		steps := 1 + r.N(3)
+		var calls []pcall
+		for s := 0; s <= steps; s++ {
+			t, _ := g.msgText()
+			cut := len(t)
+			if s < steps && r.P(65) {
+				ps := interesting(t)
+				cut = r.N(len(t) + 1)
+				if len(ps) > 0 && r.P(50) {
+					cut = ps[r.N(len(ps))]
+				}
+			}
+			fmt.Fprintf(&sb, " | B %s | P %d 0 %d | O", hx(t), cut, r.N(8))
+			calls = append(calls, pcall{cut, 0})
+			if s < steps {
+				sb.WriteString(" | " + r.Pick("R", "I"))
+			}
+		}
+		g.add(safetyCase("C04", sb.String(), calls, nil, "msg-reuse-history"))
+	}
 	// pure functions on hostile input (lookup, compare, relocation, signature)
 	m := g.budget(3000, 100000)
 	for i := 0; i < m; i++ {
